@@ -120,6 +120,55 @@ func propDecompose(t *rapid.T, h hashKind) {
 	classes := map[string]bool{h.name: true}
 	var log []string
 	junk := R.MTH(0, 1)
+	vh := h.lib()
+	// observe: Root() and/or Prove() may be read after EVERY operation (also after a refused one); what they
+	// return must be the reference root/proof of the leaves pushed so far, and the proof handed out must
+	// verify against the root handed out with it.
+	observe := func(after string, m int) {
+		kind := rapid.SampledFrom([]string{"none", "root", "prove", "root+prove", "prove+root"}).Draw(t, "observe")
+		if kind == "none" {
+			return
+		}
+		var wantRoot []byte
+		if m > 0 {
+			wantRoot = R.Root(m)
+		}
+		where := fmt.Sprintf("%s n=%d i=%d after %v (%d leaves so far)", h.name, n, i, log, m)
+		for _, call := range strings.Split(kind, "+") {
+			if call == "root" {
+				if got := tr.Root(); !bytes.Equal(got, wantRoot) || (got == nil) != (m == 0) {
+					t.Fatalf("%s: Root() = %x, MTH of the leaves so far = %x", where, got, wantRoot)
+				}
+				continue
+			}
+			root, ps, idx, nl := tr.Prove()
+			if !bytes.Equal(root, wantRoot) || idx != uint64(i) || nl != uint64(m) {
+				t.Fatalf("%s: Prove() root = %x (MTH %x) index=%d numLeaves=%d", where, root, wantRoot, idx, nl)
+			}
+			if m <= i {
+				if ps != nil {
+					t.Fatalf("%s: proof set %s before the proof index is reached", where, hexs(ps))
+				}
+				continue
+			}
+			want := R.ProofSet(i, m)
+			if len(ps) != len(want) {
+				t.Fatalf("%s: proof set %s, want %s", where, hexs(ps), hexs(want))
+			}
+			for j := range ps {
+				if !bytes.Equal(ps[j], want[j]) {
+					t.Fatalf("%s: proof set %s, want %s", where, hexs(ps), hexs(want))
+				}
+			}
+			if !merkletree.VerifyProof(vh, root, ps, idx, nl) {
+				t.Fatalf("%s: the proof handed out does not verify against the root handed out with it", where)
+			}
+		}
+		classes["observe_mid:after_"+after] = true
+		log = append(log, "Observe("+kind+")")
+	}
+	var intact []func() bool
+	observe("nothing", 0)
 	for _, o := range ops {
 		// refusal probes before the call
 		if rapid.IntRange(0, 3).Draw(t, "probe") == 0 {
@@ -129,6 +178,7 @@ func propDecompose(t *rapid.T, h hashKind) {
 					t.Fatalf("n=%d i=%d after %v: PushSubTree(height %d) at position %d accepted (smallest sub-tree has height %d)", n, i, log, hb, o.p, bits.TrailingZeros(uint(o.p)))
 				}
 				classes["refusal_too_large"] = true
+				observe("refused_pushsubtree", o.p)
 			}
 			if o.p <= i {
 				hc := 0
@@ -139,14 +189,30 @@ func propDecompose(t *rapid.T, h hashKind) {
 					t.Fatalf("n=%d i=%d after %v: PushSubTree(height %d) at position %d accepted although it contains the proof index", n, i, log, hc, o.p)
 				}
 				classes["refusal_contains_index"] = true
+				observe("refused_pushsubtree", o.p)
 			}
 		}
 		switch o.kind {
 		case "push":
-			tr.Push(leaves[o.p])
+			data := leaves[o.p]
+			if rapid.Bool().Draw(t, "dirtyBuffer") {
+				// the leaf is a window of a larger caller buffer with non-zero bytes around it
+				var ok func() bool
+				data, ok = window(data)
+				intact = append(intact, ok)
+				classes["input:slice_with_dirty_spare_capacity"] = true
+			}
+			tr.Push(data)
 			log = append(log, fmt.Sprintf("Push@%d", o.p))
 		case "sub":
-			if err := tr.PushSubTree(o.height, R.MTH(o.p, o.p+o.cnt)); err != nil {
+			sum := R.MTH(o.p, o.p+o.cnt)
+			if rapid.Bool().Draw(t, "dirtyBuffer") {
+				var ok func() bool
+				sum, ok = window(sum)
+				intact = append(intact, ok)
+				classes["input:slice_with_dirty_spare_capacity"] = true
+			}
+			if err := tr.PushSubTree(o.height, sum); err != nil {
 				t.Fatalf("n=%d i=%d after %v: PushSubTree(height %d) of [%d,%d) refused: %v", n, i, log, o.height, o.p, o.p+o.cnt, err)
 			}
 			log = append(log, fmt.Sprintf("Sub@%d^%d", o.p, o.height))
@@ -162,8 +228,14 @@ func propDecompose(t *rapid.T, h hashKind) {
 				classes["readall_short_last"] = true
 			}
 		}
+		observe(map[string]string{"push": "push", "sub": "pushsubtree", "read": "readall"}[o.kind], o.p+o.cnt)
 	}
 	root, ps, idx, nl := tr.Prove()
+	for _, ok := range intact {
+		if !ok() {
+			t.Fatalf("%s n=%d i=%d ops=%v: a caller buffer handed to Push/PushSubTree was modified (data or spare capacity)", h.name, n, i, log)
+		}
+	}
 	what := fmt.Sprintf("%s n=%d i=%d seg=%d dup=%v ops=%s", h.name, n, i, seg, dup, strings.Join(log, ","))
 	wantRoot, want := R.Root(n), R.ProofSet(i, n)
 	if !bytes.Equal(root, wantRoot) || idx != uint64(i) || nl != uint64(n) {
@@ -180,9 +252,20 @@ func propDecompose(t *rapid.T, h hashKind) {
 	if got := tr.Root(); !bytes.Equal(got, wantRoot) {
 		t.Fatalf("%s: Root() after Prove() = %x", what, got)
 	}
-	vh := h.lib()
 	if !merkletree.VerifyProof(vh, root, ps, idx, nl) {
 		t.Fatalf("%s: honest proof does not verify", what)
+	}
+	{
+		// the same proof handed over as windows of dirty buffers, outer slice with foreign elements in its spare capacity
+		dq, ok := dirtyProofSet(ps, true)
+		droot, rok := window(root)
+		if !merkletree.VerifyProof(vh, droot, dq, idx, nl) {
+			t.Fatalf("%s: honest proof does not verify when handed over in slices with dirty spare capacity", what)
+		}
+		if !ok() || !rok() {
+			t.Fatalf("%s: VerifyProof modified its inputs or their spare capacity", what)
+		}
+		classes["input:slice_with_dirty_spare_capacity"] = true
 	}
 	// one drawn tampering, judged by the reference verifier
 	q := append([][]byte{}, ps...)
@@ -213,6 +296,7 @@ func propDecompose(t *rapid.T, h hashKind) {
 		qi = rapid.SampledFrom([]uint64{uint64(n), uint64(n) + 1, uint64(i) + 1<<uint(len(ps)-1), ^uint64(0), 1<<63 | uint64(i)}).Draw(t, "oob")
 		classes["tamper_oob"] = true
 	}
+	q, _ = dirtyProofSet(q, false)
 	got := merkletree.VerifyProof(vh, qroot, q, qi, nl)
 	exp := ref.MerkleVerify(h.model, qroot, q, qi, nl)
 	if got != exp {
